@@ -11,7 +11,8 @@ RULE = ("cases: every operator class (nestings to depth 2, batch shapes) x publi
         "{matmul, @, rmatmul (X @ op), solve, inv_quad, inv_quad_logdet, + / - / * with tensors and operators, add_diagonal, cat, expand, "
         "__getitem__ with int / slice / tensor / list indices} x a *bad* second operand: wrong inner dimension, size-1 inner dimension, "
         "extra / missing dimensions, non-broadcastable batch shapes, index >= size or < -size (int and tensor entries), square-only "
-        "operations on rectangular operators. Only inputs that torch REJECTS for the densified operator are judged (the reference call is "
+        "operations on rectangular operators; operator @ operator with an inner-dimension mismatch (same class, dense, unbatched, single-block "
+        "and block-dimension-as-batch operands of block operators). Only inputs that torch REJECTS for the densified operator are judged (the reference call is "
         "executed, not assumed). oracle: the library raises (at the call or, for lazy results, at evaluation); a returned value is a "
         "no-raise violation. debug setting on (thorough: also off, reported separately). distinct key = (root class, operation, badness)")
 ASSUMPTIONS = ["torch's own accept / reject verdict on the dense operand is the specification", "a lazy result that raises on to_dense() counts as raising"]
